@@ -67,10 +67,10 @@ theorem observed_only_by_claim (s : State) (op : Op) (hop : ∀ w i n h k e, op 
   | unbond o u bal d => exact core_atts (unbond_core s o u bal d)
   | gov l d => exact core_atts (gov_core s l d).1
   | endBlock l r => exact core_atts (endBlock_core s l r).1
-  | exec n f =>
-    simp only [step]; unfold execStep
-    repeat' split
-    all_goals rfl
+  | exec n o c =>
+    simp only [step]
+    obtain ⟨P, L, h⟩ := exec_frame s n o c
+    rw [h]
 
 /-- power of the DISTINCT registered voters of a vote list -/
 def distinctPower (m : Map Oracle) (votes : List Nat) : Nat := votePower m (dedup votes)
